@@ -236,12 +236,25 @@ def _flat_input(P, comp, names, tt):
     if not ext_sites:
         return None
     seen_types = set()
-    for g, c in ext_sites:
+
+    def site_types(g, c, depth=0):
         dks = _dispatch_keys(g)
-        if not dks:
-            return None
-        b = g.cfg.positions().get(c["i"], (None,))[0]
-        types = {name for name, v in tt.items() if b in edpe_blocks(g, dks[0], v)}
+        if dks:
+            b = g.cfg.positions().get(c["i"], (None,))[0]
+            return {name for name, v in tt.items() if b in edpe_blocks(g, dks[0], v)}
+        # a static helper the branch was extracted into: the types under which its callers call it
+        if g.static and depth < 2:
+            out = set()
+            sites = [(h, c2) for h in g.unit.funcs.values() if h is not g for c2 in h.calls(g.name)]
+            for h, c2 in sites:
+                t2 = site_types(h, c2, depth + 1)
+                if not t2:
+                    return None
+                out |= t2
+            return out if sites else None
+        return None
+    for g, c in ext_sites:
+        types = site_types(g, c)
         if not types or not types <= unpaired:
             return None
         seen_types |= types
